@@ -13,6 +13,10 @@ import Signac.Proofs.MigChain
 import Signac.Proofs.MigGate
 import Signac.PyInt
 import Signac.Proofs.PyIntLemmas
+import Signac.DiscoveryS
+import Signac.Proofs.DiscoverySLemmas
+import Signac.MigrationS
+import Signac.Proofs.MigrationSLemmas
 namespace Signac.C20
 open Signac Signac.Mig Signac.Disc
 
@@ -310,5 +314,337 @@ example : gateStr "1" = .incompatible ∧ gateStr "3" = .incompatible ∧ gateSt
 example : gateStr "2.1" = .valueError ∧ gateStr "2.0" = .valueError ∧ gateStr "" = .valueError
     ∧ gateStr "two" = .valueError ∧ gateStr "2 0" = .valueError := by decide
 example : declared "02" = some 2 ∧ declared "-2" = none ∧ declared "2.1" = none := by decide
+
+/-! ### the string travels through discovery
+
+`Disc.Tree` holds version NUMBERS; the files hold strings.  `DiscS.TreeS` (Signac/DiscoveryS.lean)
+holds the strings, and `openProjectS` / `getProjectS` / `initProjectS` / `getJobS` are the entry
+points with `int()` where the code has it: a string that `int()` rejects is a `ValueError`
+(`ErrS.valueError`) leaving the entry point on the spot.  `Denotes ts t`: every version string of
+`ts` is an integer literal of the number `t` has there.  Helper lemmas:
+Signac/Proofs/DiscoverySLemmas.lean. -/
+open Signac.DiscS
+
+/-- Where all version strings are (non-negative) integer literals, the string-level entry points
+    return exactly what the numeric ones return on the denoted tree — result and step list; so
+    `gate_refuses`, `gate_refuses_legacy` and the C19 theorems speak about such configs.
+    (`liftR` only re-reads the old error type inside the new one.) -/
+theorem stringLayer_refines (ts : TreeS) (t : Tree) (h : Denotes ts t) (p : Path) :
+    openProjectS ts p = liftR (openProject t p)
+    ∧ (∀ s, getProjectS ts p s = liftR (getProject t p s))
+    ∧ initProjectS ts p = liftR (initProject t p)
+    ∧ getJobS ts p = liftR (getJob t p)
+    ∧ locateConfigDirS ts p = liftE (locateConfigDir t p) :=
+  ⟨openProjectS_eq h p, getProjectS_eq h p, initProjectS_eq h p, getJobS_eq h p,
+   locateConfigDirS_eq h p⟩
+
+/-- Which string trees that covers: exactly those in which every declared version is a
+    non-negative integer literal (then the numeric tree is `ts.toTree`, and it is the only one);
+    and every numeric tree is covered (write the numbers the way the code does). -/
+theorem stringLayer_domain :
+    (∀ ts, (∃ t, Denotes ts t) ↔ IntLiterals ts)
+    ∧ (∀ ts, IntLiterals ts → Denotes ts ts.toTree)
+    ∧ (∀ ts t t', Denotes ts t → Denotes ts t' → t = t')
+    ∧ (∀ t, Denotes (ofTree t) t) :=
+  ⟨fun ts => ⟨fun ⟨_, h⟩ => intLiterals_of_denotes h, fun h => ⟨_, denotes_toTree ts h⟩⟩,
+   denotes_toTree, fun _ _ _ h h' => denotes_unique h h', denotes_ofTree⟩
+
+/-- A refinement result is never a ValueError, and is a project / an old error exactly when
+    the numeric result is. -/
+theorem liftR_faithful {α : Type} (r : Except Err α × List Step) :
+    (liftR r).2 = r.2 ∧ (liftR r).1 ≠ .error .valueError
+    ∧ (∀ a, (liftR r).1 = .ok a ↔ r.1 = .ok a)
+    ∧ (∀ e, (liftR r).1 = .error (.base e) ↔ r.1 = .error e) :=
+  ⟨rfl, liftE_ne_valueError r.1, liftE_ok_iff r.1, liftE_base_iff r.1⟩
+
+/-- String-level `gate_refuses`.  ANY string tree, any directory whose `.signac/config` declares
+    a string `s` that `int()` does not read as the supported version — an integer literal of
+    another number ("1", "3", "-2", "2_0"), or no integer literal at all ("2.1", "2.0", "two",
+    "") —: Project(), get_project (searching or not) and init_project raise (`refusal s`:
+    ValueError if `int(s)` fails, IncompatibleSchemaVersion otherwise) and perform no mutating
+    step.  The upward search of get_project from any existing path whose NEAREST project is that
+    directory stops there with the same error: it never skips to an enclosing project (that is
+    the code: `_locate_config_dir` returns the first directory holding `.signac/config`, then
+    `Project(path)` raises).  Likewise get_job of a path whose job directory sits below it. -/
+theorem gate_refuses_strings (ts : TreeS) (p : Path) (s : String)
+    (hc : ts.cfgS p = some (some s)) (hv : pyInt s ≠ some (SCHEMA : Int)) :
+    openProjectS ts p = (.error (refusal s), [])
+    ∧ (ts.kind p ≠ .absent →
+        (∀ b, getProjectS ts p b = (.error (refusal s), []))
+        ∧ initProjectS ts p = (.error (refusal s), []))
+    ∧ (∀ p', ts.kind p' ≠ .absent → NearestS ts p' p →
+        getProjectS ts p' true = (.error (refusal s), []))
+    ∧ (∀ p' j jp, ts.kind p' ≠ .absent → lastJob p' = some (j, jp) → ts.kind jp = .dir →
+        NearestS ts jp.tail p → getJobS ts p' = (.error (refusal s), []))
+    ∧ refusal s = (if pyInt s = none then .valueError else .base .incompatible) :=
+  ⟨openProjectS_refused ts p (some s) hc hv,
+   fun hk => ⟨getProjectS_refused ts p (some s) hc hv hk, initProjectS_refused ts p (some s) hc hv hk⟩,
+   fun p' hk hn => getProjectS_refused_below ts p' p (some s) hn hc hv hk,
+   fun p' j jp hk hl hd hn => getJobS_refused ts p' p jp j (some s) hk hl hd hn hc hv,
+   rfl⟩
+
+/-- The same for a config without the key: the configspec default "1" is what `int()` sees, and
+    1 is not the supported version: IncompatibleSchemaVersion, no step. -/
+theorem gate_refuses_absent_key (ts : TreeS) (p : Path) (hc : ts.cfgS p = some none) :
+    openProjectS ts p = (.error (.base .incompatible), [])
+    ∧ (ts.kind p ≠ .absent →
+        (∀ b, getProjectS ts p b = (.error (.base .incompatible), []))
+        ∧ initProjectS ts p = (.error (.base .incompatible), []))
+    ∧ (∀ p', ts.kind p' ≠ .absent → NearestS ts p' p →
+        getProjectS ts p' true = (.error (.base .incompatible), [])) :=
+  have hr : refusal ((none : Option String).getD "1") = .base .incompatible := by decide
+  ⟨hr ▸ openProjectS_refused ts p none hc default_refused,
+   fun hk => ⟨fun b => hr ▸ getProjectS_refused ts p none hc default_refused hk b,
+     hr ▸ initProjectS_refused ts p none hc default_refused hk⟩,
+   fun p' hk hn => hr ▸ getProjectS_refused_below ts p' p none hn hc default_refused hk⟩
+
+/-- Whatever project a string-level entry point returns, its `.signac/config` HAS the key and the
+    string there is one that `int()` reads as the supported version (SCHEMA = 2, so the default
+    "1" of an absent key is never accepted: `absent` below).  For init_project: the returned
+    project is `p` itself, and either that holds of the config that was there, or the config was
+    written by this very call — with `str(SCHEMA_VERSION)`, which `int()` reads back
+    (`pyInt_repr`). -/
+theorem accepts_only_schema (ts : TreeS) (p q : Path) :
+    ((openProjectS ts p).1 = .ok q →
+        q = p ∧ ∃ s, ts.cfgS q = some (some s) ∧ pyInt s = some (SCHEMA : Int))
+    ∧ (∀ b, (getProjectS ts p b).1 = .ok q →
+        q <:+ p ∧ ∃ s, ts.cfgS q = some (some s) ∧ pyInt s = some (SCHEMA : Int))
+    ∧ (∀ j, (getJobS ts p).1 = .ok (j, q) →
+        ∃ s, ts.cfgS q = some (some s) ∧ pyInt s = some (SCHEMA : Int))
+    ∧ ((initProjectS ts p).1 = .ok q →
+        q = p ∧ ((∃ s, ts.cfgS p = some (some s) ∧ pyInt s = some (SCHEMA : Int))
+                 ∨ (Step.writeConfig p ∈ (initProjectS ts p).2
+                    ∧ (afterInitS ts p).cfgS p = some (some (toString SCHEMA)))))
+    ∧ (pyInt "1" ≠ some (SCHEMA : Int)) := by
+  refine ⟨?_, ?_, ?_, ?_, default_refused⟩
+  · intro h
+    have := (openProjectS_ok_iff ts p q).mp h
+    rw [this.1]; exact ⟨rfl, this.2⟩
+  · intro b h; exact getProjectS_accepts ts p q b h
+  · intro j h; exact getJobS_accepts ts p j q h
+  · intro h
+    have := initProjectS_accepts ts p q h
+    refine ⟨this.1, ?_⟩
+    rcases this.2 with h1 | h1
+    · exact Or.inl h1
+    · exact Or.inr ⟨h1, by simp [afterInitS]⟩
+
+/-! non-vacuity: a tree with the configs `"2.1"`, `"02"`, `" 2"`, `"3"`, a config without the
+    key, and a project `/E` ("2") enclosing a project `/E/inner` ("2.1") -/
+
+def exS : TreeS := TreeS.ofNodes [
+  ⟨[], .dir, none, none⟩,
+  ⟨["A"], .dir, some (some "2.1"), none⟩,
+  ⟨["sub", "A"], .dir, none, none⟩,
+  ⟨["B"], .dir, some (some "02"), none⟩,
+  ⟨["workspace", "B"], .dir, none, none⟩,
+  ⟨["C"], .dir, some (some " 2"), none⟩,
+  ⟨["D"], .dir, some (some "3"), none⟩,
+  ⟨["N"], .dir, some none, none⟩,
+  ⟨["E"], .dir, some (some "2"), none⟩,
+  ⟨["workspace", "E"], .dir, none, none⟩,
+  ⟨["inner", "E"], .dir, some (some "2.1"), none⟩,
+  ⟨["x", "inner", "E"], .dir, none, none⟩,
+  ⟨["L"], .dir, none, some (some "1.5")⟩,
+  ⟨["M"], .dir, none, some none⟩ ]
+
+/-- hypotheses of `gate_refuses_strings`: "2.1" and "3" (and "two", "", "2.0", "-2") -/
+example : exS.cfgS ["A"] = some (some "2.1") ∧ pyInt "2.1" ≠ some (SCHEMA : Int)
+    ∧ exS.cfgS ["D"] = some (some "3") ∧ pyInt "3" ≠ some (SCHEMA : Int)
+    ∧ pyInt "two" ≠ some (SCHEMA : Int) ∧ pyInt "" ≠ some (SCHEMA : Int)
+    ∧ pyInt "2.0" ≠ some (SCHEMA : Int) ∧ pyInt "-2" ≠ some (SCHEMA : Int) := by decide
+
+/-- which refusal -/
+example : refusal "2.1" = .valueError ∧ refusal "3" = .base .incompatible
+    ∧ refusal "" = .valueError ∧ refusal "-2" = .base .incompatible := by decide
+
+/-- "2.1": ValueError from every entry point, nothing touched (the workspace of `/A` is missing
+    and is NOT created); from `/A/sub` the search stops at `/A` -/
+example : openProjectS exS ["A"] = (.error .valueError, [])
+    ∧ getProjectS exS ["A"] true = (.error .valueError, [])
+    ∧ getProjectS exS ["A"] false = (.error .valueError, [])
+    ∧ initProjectS exS ["A"] = (.error .valueError, [])
+    ∧ getProjectS exS ["sub", "A"] true = (.error .valueError, []) :=
+  ⟨by rfl, by rfl, by rfl, by rfl, by rfl⟩
+
+/-- "3": IncompatibleSchemaVersion -/
+example : openProjectS exS ["D"] = (.error (.base .incompatible), [])
+    ∧ initProjectS exS ["D"] = (.error (.base .incompatible), []) := ⟨by rfl, by rfl⟩
+
+/-- "02" and " 2" are accepted (`int("02") == int(" 2") == 2`); `/C` has no workspace yet -/
+example : getProjectS exS ["B"] true = (.ok ["B"], [])
+    ∧ getProjectS exS ["C"] true = (.ok ["C"], [.mkdir ["workspace", "C"]])
+    ∧ initProjectS exS ["B"] = (.ok ["B"], []) := ⟨by rfl, by rfl, by rfl⟩
+
+/-- a config without the key is version "1": refused -/
+example : getProjectS exS ["N"] true = (.error (.base .incompatible), []) := by rfl
+
+/-- the search from `/E/inner/x` stops at `/E/inner` ("2.1") with ValueError although the
+    enclosing `/E` ("2") would be accepted; from `/E` itself it is -/
+example : NearestS exS ["x", "inner", "E"] ["inner", "E"]
+    ∧ getProjectS exS ["x", "inner", "E"] true = (.error .valueError, [])
+    ∧ getProjectS exS ["E"] true = (.ok ["E"], []) :=
+  ⟨(findProjectS_nearest _ _ _).mp (by rfl), by rfl, by rfl⟩
+
+/-- a legacy `signac.rc` with `schema_version = 1.5`: ValueError out of `_raise_if_older_schema`
+    (it catches RuntimeError only), also from init_project — nothing is written; one without the
+    key is version 0: IncompatibleSchemaVersion -/
+example : openProjectS exS ["L"] = (.error .valueError, [])
+    ∧ getProjectS exS ["L"] true = (.error .valueError, [])
+    ∧ initProjectS exS ["L"] = (.error .valueError, [])
+    ∧ initProjectS exS ["M"] = (.error (.base .incompatible), []) :=
+  ⟨by rfl, by rfl, by rfl, by rfl⟩
+
+/-- a tree to which `stringLayer_refines` applies: versions written "02", " 2", "+2", "3", "0_1" -/
+def exLit : TreeS := TreeS.ofNodes [
+  ⟨[], .dir, none, none⟩,
+  ⟨["B"], .dir, some (some "02"), none⟩,
+  ⟨["C"], .dir, some (some " 2"), none⟩,
+  ⟨["P"], .dir, some (some "+2"), none⟩,
+  ⟨["D"], .dir, some (some "3"), none⟩,
+  ⟨["N"], .dir, some none, none⟩,
+  ⟨["L"], .dir, none, some (some "0_1")⟩ ]
+
+theorem exLit_denotes : Denotes exLit exLit.toTree :=
+  denotes_toTree _ (intLiterals_ofNodes _ (by decide))
+
+/-- the numbers it denotes -/
+example : exLit.toTree.cfg ["B"] = some (some 2) ∧ exLit.toTree.cfg ["C"] = some (some 2)
+    ∧ exLit.toTree.cfg ["P"] = some (some 2) ∧ exLit.toTree.cfg ["D"] = some (some 3)
+    ∧ exLit.toTree.cfg ["N"] = some none ∧ exLit.toTree.rc ["L"] = some 1 := by decide
+
+/-- so the numeric theorems speak about it: e.g. `gate_refuses` on `/D` -/
+example : getProjectS exLit ["D"] true = (.error (.base .incompatible), []) := by
+  rw [(stringLayer_refines exLit _ exLit_denotes ["D"]).2.1 true,
+    (gate_refuses exLit.toTree ["D"] (some 3) (by decide) (by decide) (by decide)).2.1 true]
+  rfl
+
+/-- `exS` is outside: "2.1" denotes no number -/
+example : ¬ ∃ t, Denotes exS t := by
+  rw [stringLayer_domain.1]
+  intro h
+  exact absurd (h.1 ["A"] "2.1" (by decide)) (by decide)
+
+/-! ### the string travels through the migration chain
+
+`MigS.ProjS` (Signac/MigrationS.lean) is `Mig.Proj` with the raw `schema_version` strings;
+`applyMigrationsS` is `apply_migrations` with `int()` where `_get_config_schema_version` has it.
+Helper lemmas: Signac/Proofs/MigrationSLemmas.lean. -/
+open Signac.MigS
+
+/-- Where every declared version is a non-negative integer literal, the string-level chain is the
+    numeric chain on the project read as numbers: same resulting project, same result, and the
+    result is again in that domain (the code writes `str(destination)`); so `migrate_preserves`,
+    `migrate_refuses_collision`, `migrate_uptodate_noop`, `migrate_idempotent`,
+    `migrate_refuses_newer` speak about such projects. -/
+theorem migrationLayer_refines (PS : ProjS) (h : IntLit PS) :
+    (applyMigrationsS PS).1.toProj = (applyMigrations PS.toProj).1
+    ∧ (applyMigrationsS PS).2 = .base (applyMigrations PS.toProj).2
+    ∧ IntLit (applyMigrationsS PS).1
+    ∧ (∀ g, detectS PS g = (match detect PS.toProj g with
+        | none => .unable
+        | some n => .ver (Int.ofNat n))) :=
+  ⟨(applyMigrationsS_toProj PS h).1, (applyMigrationsS_toProj PS h).2.1,
+   (applyMigrationsS_toProj PS h).2.2, detectS_toProj PS h⟩
+
+/-- every numeric project is in the domain -/
+theorem migrationLayer_domain (P : Proj) : IntLit (ofProj P) ∧ (ofProj P).toProj = P :=
+  ⟨intLit_ofProj P, toProj_ofProj P⟩
+
+/-- A version string that `int()` rejects ("1.0", "2.1", "two", "") in the config file the
+    migration reads — `.signac/config` if it is there, else a loadable `signac.rc` —:
+    `apply_migrations` raises ValueError; nothing is changed, the lock file is removed. -/
+theorem migrate_valueError (PS : ProjS) (c : ConfS) (s : String) (hv : c.version = some s)
+    (hs : pyInt s = none)
+    (h : PS.cfg = some c ∨ (PS.cfg = none ∧ PS.rc = some c ∧ c.project.isSome = true)) :
+    applyMigrationsS PS = ({ PS with lock := false }, .valueError)
+    ∧ (PS.lock = false → applyMigrationsS PS = (PS, .valueError)) := by
+  have h1 : applyMigrationsS PS = ({ PS with lock := false }, .valueError) := by
+    apply applyMigrationsS_valueError
+    rcases h with h | ⟨h0, h1, h2⟩
+    · exact detectS_cfg_valueError _ c s h hv hs
+    · exact detectS_rc_valueError _ c s h0 h1 h2 hv hs
+  refine ⟨h1, fun hl => ?_⟩
+  rw [h1]
+  cases PS; simp only at hl; simp [hl]
+
+/-- `migrate_preserves` at string level: a well-formed legacy project whose version is written
+    as any integer literal of 0 or 1 (or not at all) migrates, the job data is preserved, and the
+    config then carries a string that the string gate of `Project()` accepts. -/
+theorem migrate_preserves_strings (L : ProjS) (hL : IntLit L) (c : Conf) (name : String)
+    (wf : WellFormed L.toProj c name) (hcol : ¬ Collides L.toProj c) :
+    (applyMigrationsS L).2 = .base .ok
+    ∧ jobsOf (applyMigrationsS L).1.toProj = jobsOf L.toProj
+    ∧ ∃ c' s, (applyMigrationsS L).1.cfg = some c' ∧ c'.version = some s
+        ∧ pyInt s = some (SCHEMA : Int) ∧ gateStr s = .ok := by
+  obtain ⟨h1, h2, h3, _⟩ := migrationLayer_refines L hL
+  have hp := migrate_preserves L.toProj c name wf hcol
+  simp only at hp
+  obtain ⟨hok, hgate, hjobs, _⟩ := hp
+  refine ⟨by rw [h2, hok], by rw [h1, hjobs], ?_⟩
+  rw [← h1] at hgate
+  generalize (applyMigrationsS L).1 = R at h3 hgate
+  simp only [openVersion, ProjS.toProj, Option.map_map] at hgate
+  cases hc : R.cfg with
+  | none => rw [hc] at hgate; cases hgate
+  | some c' =>
+    rw [hc] at hgate
+    simp only [Option.map_some, Function.comp, Option.some.injEq, ConfS.toConf] at hgate
+    have hv := (gate_ok_iff _).mp hgate
+    cases hcv : c'.version with
+    | none => rw [hcv] at hv; exact absurd hv (by decide)
+    | some s =>
+      rw [hcv] at hv
+      simp only [Option.map_some, Option.getD_some] at hv
+      have hi := h3 c' (Or.inr hc) s hcv
+      cases hd : declared s with
+      | none => rw [hd] at hi; cases hi
+      | some n =>
+        rw [hd] at hv
+        simp only [Option.getD_some] at hv
+        subst hv
+        have hp := (declared_eq_some s _).mp hd
+        exact ⟨c', s, rfl, hcv, hp, (gateStr_exact s).mpr hp⟩
+
+/-! non-vacuity: `exLegacy` with the version written in the file -/
+
+def exLegacyS (v : Option String) : ProjS :=
+  { rc := some { version := v, project := some "my project", wsDir := some "data/ws" }
+    cfg := none, dotSignac := false
+    ents := [("other", "o1"), ("data/ws", "jobs-digest")]
+    doc := some [("k", .int 1)]
+    cacheOld := some "cache-bytes", histOld := some "history-bytes"
+    cacheNew := none, histNew := none, lock := false, rest := "rest-digest" }
+
+/-- "1.0": ValueError, untouched -/
+example : (applyMigrationsS (exLegacyS (some "1.0"))).2 = .valueError
+    ∧ (applyMigrationsS (exLegacyS (some "1.0"))).1.rc = (exLegacyS (some "1.0")).rc
+    ∧ (applyMigrationsS (exLegacyS (some "1.0"))).1.ents = (exLegacyS (some "1.0")).ents := by
+  have h := (migrate_valueError (exLegacyS (some "1.0")) _ "1.0" rfl (by decide)
+    (Or.inr ⟨rfl, rfl, rfl⟩)).2 rfl
+  rw [h]; exact ⟨rfl, rfl, rfl⟩
+
+/-- " 1", "01", "0" and no key at all: migrated, the config then says "2" -/
+example : ∀ v ∈ [some " 1", some "01", some "0", none],
+    (applyMigrationsS (exLegacyS v)).2 = .base .ok
+    ∧ ((applyMigrationsS (exLegacyS v)).1.cfg.map (·.version)) = some (some "2")
+    ∧ jobsOf (applyMigrationsS (exLegacyS v)).1.toProj = some "jobs-digest" := by decide
+
+/-- "3" (newer) and "-1" (negative: smaller than SCHEMA, origin of no migration) -/
+example : (applyMigrationsS (exLegacyS (some "3"))).2 = .base .tooNew
+    ∧ (applyMigrationsS (exLegacyS (some "-1"))).2 = .base .noPath := by decide
+
+/-- hypotheses of `migrate_preserves_strings` for the " 1" variant -/
+example : IntLit (exLegacyS (some " 1")) ∧ (exLegacyS (some " 1")).toProj = { exLegacy with
+    rc := some { version := some 1, project := some "my project", wsDir := some "data/ws" } } := by
+  refine ⟨?_, by rfl⟩
+  intro c hc s hs
+  rcases hc with hc | hc
+  · simp only [exLegacyS, Option.some.injEq] at hc
+    subst hc
+    simp only [Option.some.injEq] at hs
+    subst hs
+    decide
+  · cases hc
 
 end Signac.C20
